@@ -138,6 +138,16 @@ where
         let remainder = proof.parse_remainder()?;
         let (layer_queries, layer_proofs) =
             proof.parse_layers::<H, E>(domain_size, folding_factor)?;
+        // there must be exactly one commitment per FRI layer plus the remainder commitment; layers
+        // without a commitment would never be consumed (or checked) by the verifier
+        if layer_commitments.len() != layer_proofs.len() + 1 {
+            return Err(DeserializationError::InvalidValue(format!(
+                "expected {} FRI layer commitments for {} FRI layers, but {} were provided",
+                layer_proofs.len() + 1,
+                layer_proofs.len(),
+                layer_commitments.len()
+            )));
+        }
 
         Ok(DefaultVerifierChannel {
             layer_commitments,
